@@ -28,6 +28,18 @@ func (m *PhaseStats) EndBlockExit(c *Chain, ctx sdk.Context, err error) {
 	m.st.Count("endblock.evals")
 	if err != nil {
 		m.st.Bucket("endblock|error")
+		// model boundary: with no voting power left the consensus engine itself cannot continue;
+		// that is the end of any proof-of-stake chain, not a failure of block processing
+		var power int64
+		vals, _ := c.App.StakingKeeper.GetAllValidators(ctx)
+		for _, v := range vals {
+			if v.IsBonded() {
+				power += v.GetConsensusPower(sdk.DefaultPowerReduction)
+			}
+		}
+		if power == 0 {
+			c.Flags["valset-empty"] = true
+		}
 	}
 }
 
